@@ -191,6 +191,13 @@ def write_evidence(prop, tier, level, coverage, assumptions, wall_s, violations,
         json.dump(ev, f, indent=1)
         f.write("\n")
     os.replace(tmp, os.path.join(EVIDENCE, prop + ".json"))
+    # keep a copy per tier as well (evidence/<tier>/<id>.json), so that a later quick run does not erase
+    # the record of the last thorough run
+    tdir = os.path.join(EVIDENCE, tier)
+    os.makedirs(tdir, exist_ok=True)
+    with open(os.path.join(tdir, prop + ".json"), "w") as f:
+        json.dump(ev, f, indent=1)
+        f.write("\n")
 
 
 def next_replay_path(prop, tag):
